@@ -49,7 +49,8 @@ def parseRet (toks : List String) : Option Ret :=
     else if t.startsWith "n=" then do
       let n ← (Driver.attr? toks "n").bind Driver.int?
       let e ← Driver.attr? toks "err"
-      if e == "timeout" then pure (.pollTimeout n) else pure (.poll n (parseRes e))
+      -- "hang": the run call had to be broken out of by the harness's watchdog (carried as result `eof`)
+      if e == "timeout" then pure (.pollTimeout n) else if e == "hang" then pure (.poll n .eof) else pure (.poll n (parseRes e))
     else if t.startsWith "pending=" then do
       pure (.pending (← (Driver.attr? toks "pending").bind Driver.int?) (← (Driver.attr? toks "posted").bind Driver.int?)
                      (← (Driver.attr? toks "disp").bind Driver.int?))
@@ -101,6 +102,8 @@ def checkWith {σ : Type} (m0 : σ) (mstep : σ → Ev → Option σ) (sc : Driv
   let mut s : Option S := some {}
   let mut m : Option σ := some m0
   let mut i := 0
+  let mut nfail := 0
+  let mut skipExit : List Nat := []
   for ln in sc.lines do
     i := i + 1
     if ln.kind == '<' then
@@ -128,11 +131,37 @@ def checkWith {σ : Type} (m0 : σ) (mstep : σ → Ev → Option σ) (sc : Driv
           | none => pure ()
           | some st =>
             for t in tagsOf st e do res := { res with tags := Driver.addTag res.tags t }
-            match step st e with
-            | .ok st' => s := some st'
-            | .error k =>
-              res := { res with specFail := some (i, s!"key=loop.{k} event=[{ln.raw}] violates the ledger monitor (clause {k})") }
-              s := none
+            -- the exit of a callback whose entry was skipped below is skipped too
+            let skipThis := match e with | .exit op => skipExit.contains op | _ => false
+            if skipThis then
+              match e with
+              | .exit op => skipExit := skipExit.erase op
+              | _ => pure ()
+            else
+              match step st e with
+              | .ok st' => s := some st'
+              | .error k =>
+                -- The first violated clause is the verdict. The monitor then keeps reading (every further violated clause
+                -- is listed as `spec-more`): one defect can break clauses of several properties, and each property's check
+                -- looks for its own. Recovery: the transition is applied regardless of its clauses, except that a second
+                -- callback of a completed operation (and an event the monitor has no transition for) is left out.
+                let keys := match stepWith allFailed st e with
+                  | .error ks => ks.splitOn ","
+                  | .ok _ => [k]
+                let detail := fun (k : String) => s!"key=loop.{k} event=[{ln.raw}] violates the ledger monitor (clause {k})"
+                if res.specFail.isNone then
+                  res := { res with specFail := some (i, detail k), more := res.more ++ ((keys.filter (· != k)).map detail) }
+                else
+                  res := { res with more := res.more ++ keys.map detail }
+                nfail := nfail + 1
+                if nfail ≥ 12 then s := none
+                else
+                  match (if keys.contains "callback-twice" then none else (stepWith forced st e).toOption) with
+                  | some st' => s := some st'
+                  | none =>
+                    match e with
+                    | .enter op _ _ _ _ => skipExit := op :: skipExit
+                    | _ => pure ()
   return res
 
 def check (sc : Driver.Script) : Driver.Result := checkWith () (fun _ _ => some ()) sc
